@@ -5,6 +5,7 @@ label multiset up to the bound; (b) Force.compute()/getLayers() on the layout
 scope of mc/layout.py."""
 import itertools
 from collections import Counter
+from fractions import Fraction
 
 from mc import layout
 from mc.core import Acc
@@ -15,7 +16,7 @@ RULE = ("E-INPUT: (a) every label multiset (13 positions x widths {1,4,20}) up t
         "Distributor.distribute, structural invariant (conservation, contiguous layers, complete stub chains with "
         "parent/child links, payload, stub width, single-layer and capacity clauses); (b) the C01 layout scope through "
         "Force.compute() + getLayers() + layerIndex. Non-trivial: >= 2 layers produced.")
-ASSUMPTIONS = ["cases with |required - budget| < 1e-9 are counted and not judged for the capacity clauses (binary rounding of density*width)",
+ASSUMPTIONS = ["cases with |required - budget| < 1e-9 are judged only when density*layerWidth is exact in binary (an exact fit fits); otherwise counted, not judged",
                "trailing empty layers from algorithm 'simple' are not flagged (not forbidden by the statement)"]
 REQUIRED_COUNTERS = ("dist_multi_layer", "engine_cases")
 
@@ -127,9 +128,11 @@ def check_distribution(labels, o):
                 return "C04:split-without-bound", "%d layers although no layer width is configured" % nl, nl, False
         else:
             budget = o["density"] * o["layerWidth"]
-            if abs(req - budget) < 1e-9:
-                amb = True
-            elif req < budget:
+            exact = Fraction(o["density"]) * Fraction(o["layerWidth"])
+            reqx = sum(Fraction(w) for _, w in labels) + Fraction(sp) * (len(labels) - 1)
+            if abs(req - budget) < 1e-9 and not (Fraction(budget) == exact and reqx == exact):
+                amb = True  # the float product is not the exact budget: either answer is defensible
+            elif req <= budget:
                 if nl != 1:
                     return ("C04:split-though-fits", "labels need %r <= budget %r but got %d layers" % (req, budget, nl),
                             nl, False)
